@@ -148,6 +148,7 @@ GEN_GROUPS = {   # group -> (groups it builds on, proof files, theorems whose `P
 }
 FORCE_TIE = [False]     # thorough tier: recompile every tie (no cache), so that coqchk sees the .vo files of this very translation
 GEN_PRELIB = {"layers": ["GenLayLib.v"]}      # hand-written libraries a group's generated file imports (compiled before it, part of its hash)
+GEN_NEEDS = {"layers": ["Properties/C03.v"]}      # files outside _CoqProject (property files are compiled per check) that a group's proofs import
 GEN_EXTRA_TRANSLATOR = {"layers": "lay2coq.py"}   # groups written by a translator of their own (built on py2coq as a library)
 GEN_MODEL_FILES = ["Model/Prelude.v", "Model/Bits.v", "Model/Sig.v", "Model/Matcher.v", "Model/Select.v", "Model/Uptime.v", "Model/Mtu.v", "Model/Options.v", "Model/Text.v",
                    "Model/SigParse.v", "Model/DbParse.v", "Model/HttpRead.v", "Model/HttpMatch.v", "Proofs/BitsP.v", "Proofs/OptionsP.v", "Proofs/MtuP.v", "Proofs/UptimeP.v", "Model/Wire.v", "Spec/C03.v", "Proofs/WireP.v",
@@ -217,6 +218,9 @@ def gen_tie(groups=None):
                 else:
                     cmds = ["timeout 300 coqc -Q . PV Gen/GenLib.v"] if not (COQ / "Gen" / "GenLib.vo").exists() or \
                         (COQ / "Gen" / "GenLib.vo").stat().st_mtime < (COQ / "Gen" / "GenLib.v").stat().st_mtime else []
+                    for d in closure + [g]:
+                        cmds += ["timeout 900 coqc -Q . PV %s" % x for x in GEN_NEEDS.get(d, []) if not (COQ / x).with_suffix(".vo").exists()
+                                 or (COQ / x).with_suffix(".vo").stat().st_mtime < (COQ / x).stat().st_mtime]
                     for d in closure:      # everything it builds on (transitively) must be compiled from THIS translation
                         cmds += ["timeout 600 coqc -Q . PV Gen/%s" % x for x in GEN_PRELIB.get(d, [])]
                         cmds.append("timeout 600 coqc -Q . PV Gen/Generated_%s.v" % d)
